@@ -57,7 +57,15 @@ def run_grammar(args):
 def check_grammars(ctx, n, own="C01", **kw):
     jobs = [(ctx.seed, i, ctx.workdir, ctx.thorough(), kw) for i in range(n)]
     with concurrent.futures.ThreadPoolExecutor(16) as ex:
-        for pg, text, status, res in ex.map(run_grammar, jobs):
+        results = list(ex.map(run_grammar, jobs))
+    # a batch that did not finish (bash or the spec driver hit its time limit on a loaded machine) says
+    # nothing about the property: run it again on its own, after the pool, before reporting anything
+    for k, (pg, text, status, res) in enumerate(results):
+        if status == "run-failed":
+            ctx.count("run-retried")
+            results[k] = run_grammar(jobs[k])
+    if True:
+        for pg, text, status, res in results:
             if status != "ok":
                 ctx.count(status)
                 if status == "run-failed":
